@@ -31,7 +31,11 @@ ASSUMPTIONS = ["'has already sent its first offer' = the first offer was decided
                "an answer may leave up to SEND_COLLECTION_TIMEOUT after it was due"]
 FLOORS = {"quick": {"scenarios": 8000, "find_entries": 12000, "answers_predicted": 6000, "answers_matched": 6000,
                     "silent_by_mismatch": 10000, "silent_by_phase": 2000, "multicast_delayed_answers": 2000, "wildcard_entries": 5000,
-                    "lifecycle_classes": 9}}
+                    "lifecycle_classes": 9,
+                    "mesh_scenarios": 100, "mesh_find_deliveries_judged": 180, "mesh_find_answers_matched": 90}}
+# system-level shards: the mesh workload of pv/mesh.py under this property's boundary monitor (reports of other monitors are dropped)
+MESH = {"want": ("findanswer",), "claim": ("mesh:find-not-answered", "mesh:unicast-offer-that-no-find-explains"),
+        "quick": (2, 60), "thorough": (16, 1500)}
 
 POOL = [(0x5001, 1, 1, 10), (0x5001, 2, 1, 10), (0x5001, 1, 2, 11), (0x5002, 1, 1, 10), (0x5001, 3, 1, 12)]
 PEERS = [("10.0.8.9", 30490), ("2001:db8::89", 30490, 0, 0)]
